@@ -71,7 +71,12 @@ fn run<T: Cell, C: PositiveLength, P: Maximum<T, C> + Threshold<T, C>>(
         refill::<T, C>(&mut s, t);
         s
     } else {
-        build::<T, C>(t, t.len() * C::USIZE)
+        // the number of valid positions recorded with the table varies too (all cells, a few less, none): the pipeline
+        // reductions are defined on the cells of the matrix, whatever that number is
+        let cells = t.len() * C::USIZE;
+        let mi = match n % 6 { 1 => cells.saturating_sub(1 + n % 40), 3 => 0, _ => cells };
+        if mi != cells { rec.class("fewer_valid_positions_than_cells"); }
+        build::<T, C>(t, mi)
     };
     if reused { rec.class("reused_buffer"); }
     let r = guarded(|| {
